@@ -682,7 +682,11 @@ class Exec:
             return S.is_str(t)
         if k in ("dict", "list", "set", "tuple"):
             i = S.un_ref(t)
-            return z3.And(S.is_ref(t), i >= 0, i < self.alloc_bound_for(t), z3.Select(self.H("cls"), i) == TAGS.tag(k))
+            base = z3.And(S.is_ref(t), i >= 0, i < self.alloc_bound_for(t), z3.Select(self.H("cls"), i) == TAGS.tag(k))
+            if k == "tuple" and len(ty.args) > 1:
+                # tuple[X, Y, ...]: a fixed number of elements
+                return z3.And(base, z3.Length(self.rd("seq", i)) == len(ty.args) - 1)
+            return base
         if k == "obj":
             i = S.un_ref(t)
             subs = INDEX.subclasses(ty.cls) or [ty.cls]
@@ -1300,6 +1304,8 @@ class Exec:
                 if not self.branch(z3.Length(s) == n, "unpack"):
                     raise PyRaise("ValueError")
             ety = v.aux if isinstance(v.aux, list) and len(v.aux) == n else [self.elem_ty(v.ty)] * n
+            if v.ty.kind == "tuple" and len(v.ty.args) == n + 1 and not (isinstance(v.aux, list) and len(v.aux) == n):
+                ety = list(v.ty.args[1:])  # tuple[X, Y]: positional element types from the annotation
             for i, e in enumerate(tgt.elts):
                 self.assign(e, self.typed(s[i], ety[i]))
         else:
@@ -1360,6 +1366,8 @@ class Exec:
             objs = [a for a in bt.args if a.kind == "obj"]
             if len(objs) >= 1:
                 bt = objs[0]
+        if bt.kind == "raw" and isinstance(base.aux, tuple) and base.aux and base.aux[0] == "frame-index" and name == "name":
+            return  # frame.index.name = "...": a display label, not modelled
         if bt.kind != "obj":
             raise Unsupported(f"attribute store on {bt}")
         oid = self.ref_id(base)
@@ -1400,6 +1408,10 @@ class Exec:
                 ci = z3.simplify(i).as_long()
                 if -len(base.aux) <= ci < len(base.aux):
                     ety = base.aux[ci]
+            elif k == "tuple" and len(base.ty.args) > 1 and z3.is_int_value(z3.simplify(i)):
+                ci = z3.simplify(i).as_long()
+                if 0 <= ci < len(base.ty.args) - 1:
+                    ety = base.ty.args[1 + ci]
             ci = z3.simplify(i)
             if z3.is_int_value(ci):
                 idx = ci if ci.as_long() >= 0 else z3.simplify(ci + n)
